@@ -456,8 +456,14 @@ fn racing_attach(lane_no: u64, ops: &Arc<dyn GlobalOps>, round: u64, rep: &Repor
                 let (ops, arrived, sink) = (ops.clone(), arrived.clone(), sinks[i].clone());
                 std::thread::spawn(move || {
                     arrived.fetch_add(1, Ordering::SeqCst);
+                    let mut spins = 0u32;
                     while arrived.load(Ordering::SeqCst) < n {
-                        std::hint::spin_loop();
+                        spins += 1;
+                        if spins > 2000 {
+                            std::thread::yield_now();
+                        } else {
+                            std::hint::spin_loop();
+                        }
                     }
                     for _ in 0..((round + sub + i as u64) % 4) * 15 {
                         std::hint::spin_loop();
